@@ -1921,11 +1921,16 @@ class IMAPClientCommand:
         assert date_exp
         match = _date_re.match(date_exp)
         assert match
-        return date(
-            year=int(match.group("year")),
-            month=_month[match.group("month").lower()],
-            day=int(match.group("day")),
-        )
+        try:
+            return date(
+                year=int(match.group("year")),
+                month=_month[match.group("month").lower()],
+                day=int(match.group("day")),
+            )
+        except ValueError as exc:
+            # For example `31-Feb-2020` or `0-May-2002`
+            #
+            raise BadSyntax(value=f"invalid date '{date_exp}': {exc}") from exc
 
     #######################################################################
     #
@@ -1947,7 +1952,12 @@ class IMAPClientCommand:
 
         # We need to strip off the "" surrounding the date-time string.
         #
-        return parsedate(date_time[1:-1])
+        try:
+            return parsedate(date_time[1:-1])
+        except ValueError as exc:
+            raise BadSyntax(
+                value=f"invalid date-time {date_time}: {exc}"
+            ) from exc
 
     #######################################################################
     #
